@@ -129,6 +129,15 @@ CHECKS = {
             "bounded: histories <= 5 operations (20 sampled quick, all 500+ thorough) x 4 / 14 spec pairs; protocol-mode "
             "isolation only as a pinned witness (F11)",
             "TLA+ model (TLC exhaustive) + TLC-enumerated histories replayed in fresh processes, differential lock-step comparison"),
+    "C19": ("model_checking",
+            "Protocol.tla (derivation machine over the message alphabet) explored by TLC gives every viable message history with "
+            "its completeness for each generated protocol grammar; NextMsgs/Complete are read off the state graph and the real "
+            "PacketForecaster is walked in lock-step (history trees built by mounting real messages at the forecast path): the "
+            "offered (sender, recipient, type) set and the completeness flag must coincide at every history",
+            "bounded: 26 (quick) / 404 (thorough) protocols (alternatives with shared prefixes, options, bounded/open repetitions "
+            "of sequences with cap 3, sessions, 2-3 parties), histories up to depth 5 / 6; every message involves the "
+            "fuzzer-side party; slicing to party subsets is not covered",
+            "TLC state graph of the message-level language walked in lock-step through the real forecaster"),
 }
 
 NOT_YET = "check not built yet in this round (work in progress, see DESIGN.md section 8); not claimed"
